@@ -24,11 +24,13 @@ STMT_FORMS = [
     "DISPLAY({x} OR {y})",
     "PROCEDURE p(a, b) {{ RETURN a }}\nDISPLAY(p({x}))",
     "DISPLAY(nope({x}))",
+    "display({x})",
+    "DISPLAY(length({x}))",
     "DISPLAY(zz)",
 ]
 BINOPS = ["+", "-", "*", "/", "MOD", "==", "!=", "<", "<=", ">", ">="]
 BOUNDARY7 = ["0", "1", "2", R.BIG, '"a,b"', "l", "m"]
-BOUNDARY10 = BOUNDARY7 + ["NULL", "-1", '"é"']
+BOUNDARY10 = BOUNDARY7 + ["NULL", "-1", '"é"', "0.5", "2.5"]
 
 STATEFUL = [
     "FOR EACH x IN l { REMOVE(l, 1) }\nDISPLAY(l)",
